@@ -276,6 +276,24 @@ class TU:
         return ts[0]
 
 
+def _record_known(tu, path):
+    """appends the function names and the local names of this TU as one JSON line (tools/mkknown.py merges them)"""
+    fns, locs = set(), {}
+    for f in tu.functions:
+        fns.add(f.qname)
+        names = locs.setdefault(f.qname, set())
+        for p in f.params:
+            if p.get("name"):
+                names.add(p["name"])
+        for y in f.nodes():
+            if y["k"] == "VarDecl" and y.get("name"):
+                names.add(y["name"])
+            if "callee" in y and y["callee"].get("qname"):
+                fns.add(y["callee"]["qname"])
+    with open(path, "a") as fh:
+        fh.write(json.dumps({"functions": sorted(fns), "locals": {k: sorted(v) for k, v in locs.items()}}) + "\n")
+
+
 _stats = {"tus": 0, "functions": 0, "nodes": 0, "files": []}
 
 
@@ -319,6 +337,12 @@ def extract(src, defines=(), match=None, roots=None, extra_flags=(), ndebug=True
         if os.path.exists(out):
             os.unlink(out)
     tu = TU(d, src)
+    rec = os.environ.get("VERIF_RECORD_KNOWN")
+    if rec:
+        _record_known(tu, rec)
+    elif not os.environ.get("VERIF_NO_NORMALIZE"):
+        from . import normalize
+        tu.normalized = normalize.normalize_tu(tu)
     _stats["tus"] += 1
     _stats["functions"] += len(tu.functions)
     _stats["nodes"] += sum(f.d.get("nodes", 0) for f in tu.functions)
